@@ -1,5 +1,6 @@
 import PBProofs.Lemmas.TasksProgress
 import PBProofs.Lemmas.TasksDelay
+import PBProofs.Lemmas.TasksSlot
 /-
 C07 — Tasks: no self-overlap, no early or cancelled runs, queue order, nothing lost.
 
@@ -338,6 +339,120 @@ theorem pop_requires_free_slot {s s' : St} {now : Nat} (hstep : step s now .qhPo
   split at h1
   · cases h1
   · rename_i hr; simpa [setNow] using hr
+
+/-! ### Every started execution occupies the queue, whoever started it -/
+
+/-- The end of `runWithLocking` as it stands in the source, per call site (`direct` = the schedule handler's call for
+    a waiting task whose max delay is over, else the queue handler's call): every start raises `queueCnt` once,
+    starts one executor and one watcher that lowers `queueCnt` again. This is what the model's `spawnQ` / `spawnS`
+    do (see `spawn_takes_slot`); the three numbers are regenerated from the source on every run. -/
+theorem every_start_takes_a_queue_slot (direct : Bool) :
+    PB.Gen.Tasks.slotsTaken direct = 1 ∧ PB.Gen.Tasks.executorsStarted direct = 1 ∧
+      PB.Gen.Tasks.watchersStarted direct = 1 := by
+  cases direct <;> decide
+
+/-- The model's goroutine-start step of either handler changes the slot count and the number of watchers by what
+    the source does at that call site. -/
+theorem spawn_takes_slot {s s' : St} {now : Nat} :
+    (step s now .spawnQ = some s' → s'.wg = s.wg + PB.Gen.Tasks.slotsTaken false ∧
+      s'.watchers.length = s.watchers.length + PB.Gen.Tasks.watchersStarted false) ∧
+    (step s now .spawnS = some s' → s'.wg = s.wg + PB.Gen.Tasks.slotsTaken true ∧
+      s'.watchers.length = s.watchers.length + PB.Gen.Tasks.watchersStarted true) := by
+  have hq := every_start_takes_a_queue_slot false
+  have hd := every_start_takes_a_queue_slot true
+  rw [hq.1, hq.2.2, hd.1, hd.2.2]
+  constructor <;> intro hstep <;> have h1 := (step_eq hstep).2 <;> clear hstep <;> simp only [stepAt] at h1 <;>
+    split at h1 <;> cases h1 <;> simp [setNow, setTask]
+
+/-- An execution started through `runWithLocking` — by the queue handler or directly by the schedule handler — that
+    has not returned, whose task was not cancelled and whose watcher did not give up after the execution-wait
+    limit, still holds its queue slot: its watcher exists and the slot count is positive. -/
+theorem started_run_holds_slot {s : St} (h : Reachable s) (u : Nat)
+    (hrun : 0 < (s.tasks u).sp + (s.tasks u).fn) (hc : (s.tasks u).ctxDone = false) (ht : (s.tasks u).tmo = false) :
+    0 < s.wg ∧ ∃ w, w ∈ s.watchers ∧ w.t = u ∧ w.gen = (s.tasks u).gen := by
+  obtain ⟨w, hw, h1, h2⟩ := reachable_invSlot h u hrun hc ht
+  refine ⟨?_, w, hw, h1, h2⟩
+  rw [((reachable_inv h).watch 0).1]
+  exact List.length_pos_of_mem hw
+
+/-- The queue handler does not pass its wait while any started execution (also one the schedule handler started
+    directly) has not returned, was not cancelled and is within the execution-wait limit. -/
+theorem queue_handler_waits_for_every_started_run {s s' : St} {now : Nat} (h : Reachable s)
+    (hstep : step s now .qhWait = some s') (u : Nat)
+    (hrun : 0 < (s.tasks u).sp + (s.tasks u).fn) (hc : (s.tasks u).ctxDone = false) (ht : (s.tasks u).tmo = false) :
+    s'.qh = .waiting := by
+  have hpos := (started_run_holds_slot h u hrun hc ht).1
+  have h1 := (step_eq hstep).2
+  simp only [stepAt] at h1
+  split at h1
+  · cases h1
+  · cases h1
+    have : ¬ s.wg = 0 := by omega
+    simp [setNow, this]
+
+/-- The wait of the queue handler ends only at a moment at which every started execution, whoever started it, has
+    returned, was cancelled or exceeded the execution-wait limit. -/
+theorem wait_ends_only_when_every_started_run_is_over {s s' : St} {now : Nat} {a : Act} (h : Reachable s)
+    (hstep : step s now a = some s') (hq : s.qh = .waiting) (hr : s'.qh = .ready) (u : Nat)
+    (hrun : 0 < (s'.tasks u).sp + (s'.tasks u).fn) :
+    (s'.tasks u).ctxDone = true ∨ (s'.tasks u).tmo = true := by
+  have hz := waitEnd_step hstep hq hr
+  have hr' : Reachable s' := Reachable.step now a h hstep
+  cases hc : (s'.tasks u).ctxDone
+  · cases ht : (s'.tasks u).tmo
+    · have := (started_run_holds_slot hr' u hrun hc ht).1
+      omega
+    · exact Or.inr rfl
+  · exact Or.inl rfl
+
+/-- While the queue handler is past its wait, an execution that still holds its slot was started directly by the
+    schedule handler (`queue_serial` for the remaining case): the only way two queued tasks run side by side after a
+    pick is a direct start that took its slot after the handler's wait had ended. -/
+theorem unfinished_run_at_pick_is_a_direct_start {s s' : St} {now : Nat} (h : Reachable s)
+    (hstep : step s now .qhPop = some s') (u : Nat)
+    (hrun : 0 < (s.tasks u).sp + (s.tasks u).fn) (hc : (s.tasks u).ctxDone = false) (ht : (s.tasks u).tmo = false) :
+    (s.tasks u).byQh = false := by
+  have h1 := (step_eq hstep).2
+  have hready : s.qh = .ready := by
+    simp only [stepAt] at h1
+    split at h1
+    · cases h1
+    · rename_i hr; simpa [setNow] using hr
+  cases hb : (s.tasks u).byQh
+  · rfl
+  · have := queue_serial h (Or.inl hready) u hb hrun
+    simp [hc, ht] at this
+
+/-- Witness: task 1 runs (started through the queue, no max delay), task 0 waits with max delay 20 and task 2 behind it;
+    task 1 returns at 40 and the handler's wait ends; the schedule handler, which took task 0 out of the schedule at
+    28 (max delay over), starts it only now; the queue handler picks task 2. -/
+def raceTrace : List (Nat × Act) :=
+  [(1, .maxDelay 1 0), (1, .queue 1), (2, .qhWait), (3, .qhPop), (4, .runQ), (5, .spawnQ), (6, .fnBegin 1),
+   (7, .maxDelay 0 20), (8, .queue 0), (9, .queue 2), (10, .qhWait), (28, .shFetch), (29, .runS),
+   (40, .fnEnd 1), (41, .finish 1), (42, .slotFree 1 false), (43, .spawnS), (44, .fnBegin 0)]
+
+/-- The full-strength statement "the queue handler picks the next task only when every started queued task has
+    returned, was cancelled or exceeded the execution-wait limit" is FALSE on the code as it is: the schedule
+    handler's direct start raises `queueCnt` after the queue handler has read it as zero (recorded finding
+    `C07:queue-pick-raced-by-direct-start`). -/
+theorem pick_waits_for_every_started_run_REFUTED :
+    ¬ (∀ s s' now, Reachable s → step s now .qhPop = some s' → ∀ u, 0 < (s.tasks u).sp + (s.tasks u).fn →
+        (s.tasks u).ctxDone = true ∨ (s.tasks u).tmo = true) := by
+  intro hall
+  have hsome : (runTrace init raceTrace).isSome = true := by decide
+  obtain ⟨s, hs⟩ := Option.isSome_iff_exists.1 hsome
+  have hr : Reachable s := reachable_runTrace raceTrace Reachable.init hs
+  have hsome' : (step s 45 .qhPop).isSome = true := by
+    have : ((runTrace init raceTrace).bind fun s => step s 45 .qhPop).isSome = true := by decide
+    rw [hs] at this; simpa using this
+  obtain ⟨s', hs'⟩ := Option.isSome_iff_exists.1 hsome'
+  have hfacts : ((runTrace init raceTrace).bind fun s => (step s 45 .qhPop).map fun s' =>
+      (decide (s'.qh = .hold 2), (s.tasks 0).fn, (s.tasks 0).sp, (s.tasks 0).ctxDone, (s.tasks 0).tmo))
+      = some (true, 1, 0, false, false) := by decide
+  rw [hs] at hfacts
+  simp [hs'] at hfacts
+  have := hall s s' 45 hr hs' 0 (by omega)
+  simp [hfacts] at this
 
 /-! ### Nothing lost -/
 
